@@ -96,7 +96,17 @@ func rlRun(in []byte) (interface{}, error) {
 					case 1:
 						mops = append(mops, rdbref.ModOp{Kind: "uint", Uint: uint64(1)<<40 + uint64(rnd.Intn(1000))}) // 64-bit form
 					case 2:
-						mops = append(mops, rdbref.ModOp{Kind: "string", Str: []byte("module-data\xff\x00")})
+						// a module string as a server stores it: raw, integer-encoded (8 / 16 / 32 bit), or compressed
+						switch rnd.Intn(4) {
+						case 0:
+							mops = append(mops, rdbref.ModOp{Kind: "string", Str: []byte("module-data\xff\x00")})
+						case 1:
+							mops = append(mops, rdbref.ModOp{Kind: "string", Str: []byte(fmt.Sprint([]int{7, -100, 30000, -40000, 2000000000}[rnd.Intn(5)])), Form: rdbref.StrInt})
+						case 2:
+							mops = append(mops, rdbref.ModOp{Kind: "string", Str: bytes.Repeat([]byte("module state "), 8), Form: rdbref.StrLZF})
+						default:
+							mops = append(mops, rdbref.ModOp{Kind: "string", Str: []byte("12345"), Form: rdbref.StrAuto})
+						}
 					case 3:
 						mops = append(mops, rdbref.ModOp{Kind: "double", F: rnd.NormFloat64()})
 					default:
